@@ -15,7 +15,14 @@
    fiduccia_mattheyses iterates over HashSets (random order per process and per call): on success only
    what is deterministic is compared (code, length, ids in {0,1}, untouched tail, cut not worse). *)
 From Coupe Require Import Lib.Prelude Lib.SFloat Lib.Report Gen.FfiTables Model.Ffi Model.FfiInst.
+From Coq Require Import Uint63.
 Open Scope N_scope.
+
+(* a double's bit pattern written as two 32-bit halves in primitive integers: a case file with thousands of
+   doubles then type-checks ten times faster than with 64-bit N literals (63 constructors each) *)
+Definition VD (hi lo : int) : value :=
+  VDouble (Z.to_N (Uint63.to_Z hi) * 4294967296 + Z.to_N (Uint63.to_Z lo)).
+Arguments VD (hi lo)%uint63.
 
 (* callback data set: the cells behind the pointer i_th returns for index i; an index the harness never
    serves has no memory behind it (reading it is UB in the model) *)
@@ -60,16 +67,17 @@ Definition oracle (c : case17) (nt : numty) (ws : list value) (ps : list (list v
 
 Definition model_outcome (c : case17) : outcome :=
   let p0 := k_p0 c in
-  let prm i := match nth_opt (k_params c) i with Some x => x | None => 0 end in
+  let args := k_params c in
+  let geo := fun (d : nat) ps nt ws params s => oracle c nt ws ps params s in
+  let num := fun nt ws params s => oracle c nt ws [] params s in
   match k_entry c with
-  | 0 => coupe_rcb (fun d ps nt ws params s => oracle c nt ws ps (map Some params) s) p0 (k_dim c) (k_points c) (k_weights c) (k_params c)
-  | 1 => coupe_rib (fun d ps nt ws params s => oracle c nt ws ps (map Some params) s) p0 (k_dim c) (k_points c) (k_weights c) (k_params c)
-  | 2 => coupe_hilbert (fun d ps nt ws params s => oracle c nt ws ps (map Some params) s) p0 (k_dim c) (k_points c) (k_weights c) (k_params c)
-  | 3 => coupe_greedy (fun nt ws k s => oracle c nt ws [] [Some k] s) p0 (k_weights c) (prm 0%nat)
-  | 4 => coupe_karmarkar_karp (fun nt ws k s => oracle c nt ws [] [Some k] s) p0 (k_weights c) (prm 0%nat)
-  | 5 => coupe_karmarkar_karp_complete (fun nt ws k s => oracle c nt ws [] [Some k] s) p0 (k_weights c) (prm 0%nat)
-  | 6 => coupe_fiduccia_mattheyses (fun adj nt ws a b i d s => oracle c nt ws [] [a; b; i; Some d] s) p0 (k_adj c) (k_weights c)
-           (prm 0%nat) (prm 1%nat) (prm 2%nat) (prm 3%nat)
+  | 0 => entry_geo ffi_arms ffi_crash ffi_rcb geo p0 (k_dim c) (k_points c) (k_weights c) args
+  | 1 => entry_geo ffi_arms ffi_crash ffi_rib geo p0 (k_dim c) (k_points c) (k_weights c) args
+  | 2 => entry_geo ffi_arms ffi_crash ffi_hilbert geo p0 2 (k_points c) (k_weights c) args
+  | 3 => entry_num ffi_arms ffi_crash ffi_greedy num p0 (k_weights c) args
+  | 4 => entry_num ffi_arms ffi_crash ffi_kk num p0 (k_weights c) args
+  | 5 => entry_num ffi_arms ffi_crash ffi_ckk num p0 (k_weights c) args
+  | 6 => entry_fm ffi_arms ffi_crash ffi_fm (fun adj nt ws params s => oracle c nt ws [] params s) p0 (k_adj c) (k_weights c) args
   | _ =>
     (* 7: coupe_adjncy_csr's structure check (cell 0 := 1 iff a matrix is returned) is not modelled; the
        case is judged by prop_ok only (against sprs' own check) *)
